@@ -110,14 +110,22 @@ def prop(spec, rec):
         dts = acnsim.datetimes_array(sim)
     require(len(dts) == sim.iteration == m.end, "datetimes_length", lambda: "%d datetimes for %d periods" % (len(dts), sim.iteration))
     base = sc.parse_start(spec)
+    from fractions import Fraction
+
+    per_us = Fraction(str(spec["period"])) * 60 * 10 ** 6  # the period in microseconds, exactly
     for k in range(len(dts)):
-        wantdt = np.datetime64(base + timedelta(minutes=spec["period"] * k))
-        require(dts[k] == wantdt, "datetimes_spacing", lambda: "entry %d is %r, expected %r (period %r min)" % (k, dts[k], wantdt, spec["period"]))
+        # entry k = start + k x period, to the millisecond (float rounding of the product is not judged)
+        got_us = int((dts[k] - np.datetime64(base)) / np.timedelta64(1, "us"))
+        require(abs(got_us - k * per_us) <= 1000, "datetimes_spacing", lambda: "entry %d is %r = start + %d us, expected start + %d x %r min = %s us" % (k, dts[k], got_us, k, spec["period"], k * per_us))
 
     if R.any():
         labels.add("nonzero_rates")
     if spec.get("tz"):
         labels.add("tz_aware_start")
+    if len(set(PH)) == 1 and n > 1:
+        labels.add("single_phase_site")
+        if any(len({v > 0 for v in c["coeffs"].values() if v != 0}) == 2 for c in spec["constraints"]):
+            labels.add("single_phase_mixed_sign_constraint")
     nt = "mixed_voltage" in labels and "requested_not_in_network_order" in labels
     rec.case(spec, labels, nt)
 
@@ -134,6 +142,11 @@ def cases(draw):
         spec["requested"], spec["phase_ids"] = [], []
     spec["threshold"] = draw(st.sampled_from([0.1, 0.001, 1.0, 5.0, 0.0, 0.0, -0.05]))
     spec["tz"] = draw(st.sampled_from([None, None, -8, 5.5]))
+    if draw(st.integers(0, 3)) == 0:
+        # a single-phase site: every station on the same angle (mixed-sign coefficients stay)
+        ph = draw(st.sampled_from([0.0, 30.0, -90.0, 180.0]))
+        for stn in spec["stations"]:
+            stn["phase"] = ph
     return spec
 
 
@@ -145,7 +158,7 @@ def subchecks(tier):
             prop,
             quick=300,
             thorough=20000,
-            floors={"requested_not_in_network_order": 0.1, "mixed_voltage": 0.3, "nonzero_rates": 0.4, "unbalance_checked": 0.05, "fractional_period": 0.04},
+            floors={"requested_not_in_network_order": 0.1, "mixed_voltage": 0.3, "nonzero_rates": 0.4, "unbalance_checked": 0.05, "fractional_period": 0.04, "single_phase_mixed_sign_constraint": 0.015},
         )
     ]
 
